@@ -2,11 +2,11 @@
 C12 driver: TRACE ACCEPTANCE against `CamVerif.Model.StreamLoop`.
 
 Request (one line, space separated):
-  c12 trace <ls> <ts> <ps> <pc> <f1> <f2> <cap> <bcap> <item>* <event>*
+  c12 trace <profile> <ls> <ts> <ps> <pc> <f1> <f2> <cap> <bcap> <maxLate> <item>* <event>*
 items  : `id<hex|->` data packet, `ifio` `ifdisc` `iftimeout` fault
 events : loop thread   Ytop Yget Yobt Ypoll Ysend Yerr  yield-point markers
                        S<id>,<len>  SF<cls>            submit ok / failed
-                       PD<id>,<len>,<fnv>  PE<id>,<cls>  PP<id>  PC<id>   poll: data / fault / pending / cancelled
+                       PD<id>,<len>,<fnv>  PE<id>,<cls>  PP<id>  PC<id>  PL<id>   poll: data / fault / pending / cancelled / cancelled, completion late
                        C<id>                            cancel
          receiver      RO<tok>,<ptr>,<valid>,<info>,<fnv>  RE<cls>  RN  RB<tok>  RD<tok>  RX
          controller    KC  KR<ok|err>  KL<ok|err> (close returned)  KD (drop returned)  KS (start refused)
@@ -82,7 +82,7 @@ def stepTag : Step → Nat
   | .checkCancel => 1 | .obtainReuse => 2 | .obtainBack => 3 | .obtainAlloc => 4 | .submitOk => 5
   | .submitFail e => 60 + (match e with | .io => 0 | .disconnected => 1 | .timeout => 2 | .invalidPayload => 3)
   | .pollOk => 7 | .pollOverflow => 8 | .pollFault => 9 | .pollPending => 10 | .parse => 11
-  | .trySend => 12 | .cancelNext => 13 | .reapOne => 14 | .iterEnd => 15 | .exit => 16
+  | .trySend => 12 | .cancelNext => 13 | .reapOne => 14 | .reapLate => 26 | .iterEnd => 15 | .exit => 16
   | .rxRecv => 17 | .rxNone => 18 | .rxSendBack _ => 19 | .rxDrop _ => 20 | .rxClose => 21
   | .stopCall => 22 | .stopDisc => 23 | .stopBlock => 24 | .closeDone => 25
 
@@ -185,6 +185,11 @@ def applyEvent (E : Env) (ev : String) (a : Acc) : Option Acc :=
     match body.toNat?, frontXfer s with
     | some id, some x => if x.id = id then E.step a .pollPending else none
     | _, _ => none
+  else if ev.startsWith "PL" then
+    -- poll of a cancelled transfer whose completion is not reported yet
+    match body.toNat?, frontXfer s with
+    | some id, some x => if x.id = id then E.step a .reapLate else none
+    | _, _ => none
   else if ev.startsWith "PC" then
     match body.toNat?, frontXfer s with
     | some id, some x => if x.id = id then E.step a .reapOne else none
@@ -277,10 +282,10 @@ def parseItem (t : String) : Option Item :=
   else none
 
 def handle : List String → String
-  | "trace" :: prof :: ls :: ts :: ps :: pc :: f1 :: f2 :: cap :: bcap :: rest =>
-    match profileOf prof, ls.toNat?, ts.toNat?, ps.toNat?, pc.toNat?, f1.toNat?, f2.toNat?, cap.toNat?, bcap.toNat? with
-    | some prof, some ls, some ts, some ps, some pc, some f1, some f2, some cap, some bcap =>
-      let P : Params := ⟨ls, ts, ps, pc, f1, f2, cap, bcap⟩
+  | "trace" :: prof :: ls :: ts :: ps :: pc :: f1 :: f2 :: cap :: bcap :: ml :: rest =>
+    match profileOf prof, ls.toNat?, ts.toNat?, ps.toNat?, pc.toNat?, f1.toNat?, f2.toNat?, cap.toNat?, bcap.toNat?, ml.toNat? with
+    | some prof, some ls, some ts, some ps, some pc, some f1, some f2, some cap, some bcap, some ml =>
+      let P : Params := ⟨ls, ts, ps, pc, f1, f2, cap, bcap, ml⟩
       let itemToks := rest.takeWhile (fun t => t.startsWith "i")
       let evs := rest.dropWhile (fun t => t.startsWith "i")
       match itemToks.mapM parseItem with
@@ -288,7 +293,7 @@ def handle : List String → String
         let E : Env := ⟨P, asm prof, items⟩
         runEvents E 0 evs [⟨init P, [], [], []⟩]
       | none => "bad-items"
-    | _, _, _, _, _, _, _, _, _ => "bad-op"
+    | _, _, _, _, _, _, _, _, _, _ => "bad-op"
   | _ => "bad-op"
 
 end Driver.C12
